@@ -141,6 +141,12 @@ impl NameCompressor {
                 parent,
                 parent_offset,
             ) {
+                // A compression pointer holds a 14-bit offset from the
+                // start of the message, i.e. including the 12-byte header.
+                Some((_, _, offset)) if usize::from(offset) + 12 >= 16384 => {
+                    break
+                }
+
                 Some(entry) => {
                     let tmp;
                     (parent, name, tmp) = entry;
@@ -160,7 +166,7 @@ impl NameCompressor {
 
         // If there is a non-empty uncompressed prefix, register it as a new
         // entry here.
-        if !name.is_empty() && contents.len() < 16384 {
+        if !name.is_empty() && contents.len() + 12 < 16384 {
             // SAFETY: 'name' is a non-empty sequence of labels.
             let first = unsafe {
                 LabelIter::new_unchecked(name).next().unwrap_unchecked()
@@ -322,6 +328,14 @@ impl NameCompressor {
                 parent_offset,
                 hash,
             ) {
+                // A compression pointer holds a 14-bit offset from the
+                // start of the message, i.e. including the 12-byte header.
+                Some((_, _, _, offset))
+                    if usize::from(offset) + 12 >= 16384 =>
+                {
+                    break
+                }
+
                 Some(entry) => {
                     let tmp;
                     (parent, name, hash, tmp) = entry;
@@ -341,7 +355,7 @@ impl NameCompressor {
 
         // If there is a non-empty uncompressed prefix, register it as a new
         // entry here. We already know what the hash of its last label is.
-        if !name.is_empty() && contents.len() < 16384 {
+        if !name.is_empty() && contents.len() + 12 < 16384 {
             // Pick the entry that was least recently used (or uninitialized).
             //
             // By the invariants of 'last_use', it is guaranteed that this
